@@ -91,6 +91,7 @@ func runChild(jobFile string) {
 		os.Exit(2)
 	}
 	loadKnown()
+	startWatchdog()
 	t0 := time.Now()
 	res := dispatch(job)
 	res.Job = job
@@ -254,7 +255,7 @@ func runOneJob(self, logDir string, idx int, job Job) *JobRes {
 		res.WallS = time.Since(t0).Seconds()
 	}
 	if job.Race {
-		res.Notes = append(res.Notes, raceReports(logDir, idx)...)
+		res.Viol = append(res.Viol, raceViolations(logDir, idx)...)
 	}
 	return res
 }
@@ -310,12 +311,47 @@ func logTail(lf string, n int) string {
 	return strings.Join(lines, "\n")
 }
 
-func raceReports(logDir string, idx int) []string {
+// raceViolations turns the race detector's report files into violations,
+// de-duplicated by the pair of first repository/journal frames of the two
+// accesses (line numbers stripped).  Reports whose stacks contain only
+// harness frames mean a bug in the harness (class "harness").
+func raceViolations(logDir string, idx int) []Violation {
 	ms, _ := filepath.Glob(filepath.Join(logDir, fmt.Sprintf("race-%04d.*", idx)))
-	var out []string
+	seen := map[string]bool{}
+	var out []Violation
 	for _, m := range ms {
 		b, _ := os.ReadFile(m)
-		out = append(out, "RACELOG "+m+"\n"+string(b))
+		for _, blk := range strings.Split(string(b), "==================") {
+			if !strings.Contains(blk, "WARNING: DATA RACE") {
+				continue
+			}
+			var sig []string
+			stacks := strings.Split(blk, "\n\n")
+			for _, st := range stacks[:minInt(2, len(stacks))] {
+				first := ""
+				for _, l := range strings.Split(st, "\n") {
+					l = strings.TrimSpace(l)
+					if (strings.Contains(l, "go-nfsd/") || strings.Contains(l, "go-journal")) && strings.HasSuffix(l, ")") && !strings.Contains(l, ".go:") {
+						first = l
+						break
+					}
+				}
+				sig = append(sig, first)
+			}
+			key := strings.Join(sig, " <-> ")
+			if seen[key] {
+				continue
+			}
+			seen[key] = true
+			class := "race"
+			if strings.Trim(key, " <->") == "" {
+				class = "harness"
+			}
+			if len(blk) > 6000 {
+				blk = blk[:6000]
+			}
+			out = append(out, Violation{Class: class, Msg: "data race reported by the Go race detector (" + key + "), report file " + m + ":\n" + blk})
+		}
 	}
 	return out
 }
